@@ -21,6 +21,11 @@ registered children that died meanwhile.  The "everything dead was reported" cla
 after that, before any other SIGCHLD source (the probe child is started only afterwards).  The mask is
 restored in ``finally``.
 
+Dropped references (child flag ``drop_ref``): right after registering, the harness drops every
+reference to the ``Subprocess`` object (keeps pid, stdin pipe, callback record / future) and runs
+``gc.collect()`` — the documented usage ``fut = Subprocess(cmd).wait_for_exit()``.  The exit must still be
+reported; ``returncode`` attributes are then not observable and not checked.
+
 Inherited dispositions: started from a background job or under ``nohup`` the check inherits SIGINT/
 SIGQUIT/SIGHUP as *ignored*, which exec passes on to the shell children — they would survive the
 signal the case sends and the harness would wait for their death forever.  For the duration of a case
@@ -57,10 +62,14 @@ Sensitivity (quick tier, seed 1, one mutant at a time on a scratch copy):
     earlier version of this check missed it because every death delivered its own SIGCHLD)
   * ``if ret != 0 and raise_error`` -> ``if ret > 0 and raise_error`` ...... caught (C42.future_should_raise)
   * ``os.WEXITSTATUS(status)`` -> ``status`` ............................... caught (C42.callback_status)
+  * ``Subprocess._waiting`` made a ``weakref.WeakValueDictionary`` (an object the caller no longer
+    references drops out of the registry; SIGCHLD reaps nothing) ......... caught (C42.not_reported, by the
+    ``drop_ref`` cases with exit after registration)
   * DESIGN's "callback not cleared before invocation" is equivalent for every history in the
     statement's domain (``_set_returncode`` runs once per reaped pid), so it was replaced by the above.
 """
 import asyncio
+import gc
 import os
 import select
 import signal
@@ -79,8 +88,9 @@ RULE = (
     "Hypothesis: 1-4 real /bin/sh children (status 0..255 biased to 0,1,2,126,127,128,255, or signal "
     "HUP/INT/KILL/TERM/USR1/PIPE sent by the child itself or from outside; callback or future API; "
     "raise_error T/F), a permutation of register/release operations with 0-2 loop iterations after each, "
-    "optional probe child afterwards, optional SIGCHLD blocking so that all deaths arrive as ONE SIGCHLD; "
-    "plus 6 fixed cases covering every listed status and signal and real coalescing; "
+    "optional probe child afterwards, optional SIGCHLD blocking so that all deaths arrive as ONE SIGCHLD, "
+    "optional dropping of every reference to the Subprocess after registration; "
+    "plus 7 fixed cases covering every listed status and signal and real coalescing; "
     "non-trivial = >=2 children with different timing classes (exit before vs after registration) or a "
     "signal exit; distinct = SHA-1 of the case"
 )
@@ -170,6 +180,8 @@ class Child:
         self.sub = Subprocess(["/bin/sh", "-c", script], stdin=subprocess.PIPE,
                               stdout=subprocess.DEVNULL, stderr=subprocess.DEVNULL, close_fds=True)
         self.pid = self.sub.pid
+        self.stdin = self.sub.stdin  # the pipe object alone does not keep the Subprocess/Popen alive
+        self.dropped = False
         self.calls = []
         self.future = None
         self.truth = None
@@ -183,6 +195,12 @@ class Child:
             self.sub.set_exit_callback(self.calls.append)
         else:
             self.future = self.sub.wait_for_exit(raise_error=self.spec["raise_error"])
+        if self.spec.get("drop_ref"):
+            # the documented usage `fut = Subprocess(cmd).wait_for_exit()`: the caller keeps only the
+            # future (or its callback); the library's registry must keep the object alive itself
+            self.sub = None
+            self.dropped = True
+            gc.collect()
 
     def release(self):
         self.released = True
@@ -190,7 +208,7 @@ class Child:
         if kind[0] == "signal" and kind[2] == "external":
             os.kill(self.pid, getattr(signal, "SIG" + kind[1]))
         else:
-            self.sub.stdin.close()
+            self.stdin.close()
         # blocks until the child is a zombie (bounded); does not reap it
         info = wait_dead(self.pid)
         self.dead = True
@@ -216,16 +234,17 @@ class Child:
                 except ProcessLookupError:
                     pass
             try:
-                if self.sub.stdin is not None and not self.sub.stdin.closed:
-                    self.sub.stdin.close()
+                if self.stdin is not None and not self.stdin.closed:
+                    self.stdin.close()
             except OSError:
                 pass
-            if self.sub.proc.returncode is None:
+            if self.sub is None or self.sub.proc.returncode is None:
                 try:
                     os.waitpid(self.pid, 0)
                 except ChildProcessError:
                     pass
-                self.sub.proc.returncode = -999  # reaped by the harness; keeps Popen.__del__ quiet
+                if self.sub is not None:
+                    self.sub.proc.returncode = -999  # reaped by the harness; keeps Popen.__del__ quiet
         finally:
             Subprocess._waiting.pop(self.pid, None)
             if self.future is not None and self.future.done() and not self.future.cancelled():
@@ -279,6 +298,8 @@ def verify(ctx, c, where):
                 ctx.fail("C42.future_should_not_raise", dict(d, exc=repr(exc)))
             elif f.result() != want:
                 ctx.fail("C42.future_result", dict(d, got=f.result()))
+    if c.sub is None:
+        return  # reference dropped by the caller: only the callback / future are observable
     if c.sub.returncode != want:
         ctx.fail("C42.returncode", dict(d, got=c.sub.returncode))
     if c.sub.proc.returncode != want:
@@ -381,6 +402,10 @@ def run_case(ctx, case):
             labels.add("status_nonzero")
         if spec["api"] == "future":
             labels.add("raise_error_true" if spec["raise_error"] else "raise_error_false")
+        if spec.get("drop_ref"):
+            labels.add("subprocess_ref_dropped")
+            if timing[i] == "after":
+                labels.add("ref_dropped_then_exit")
     labels.add("children_%d" % m)
     # several releases with no loop iteration in between: one SIGCHLD may cover them
     run = 0
@@ -417,6 +442,7 @@ _child = st.fixed_dictionaries({
     "kind": _kind,
     "api": st.sampled_from(["callback", "future"]),
     "raise_error": st.booleans(),
+    "drop_ref": st.sampled_from([False, False, True]),
 })
 
 
@@ -457,6 +483,12 @@ def fixed_cases():
            "probe": "callback"}
 
 
+    # the caller keeps no reference to the Subprocess objects (only callback / future)
+    yield {"children": [dict(ch(("status", 5), "future", True), drop_ref=True), dict(ch(("status", 0), "callback"), drop_ref=True),
+                        dict(ch(("signal", "TERM", "external"), "future", False), drop_ref=True)],
+           "program": [("register", 0, 1), ("register", 1, 0), ("release", 0, 1), ("release", 2, 0), ("register", 2, 0),
+                       ("release", 1, 0)],
+           "probe": "future", "coalesce": False}
     # real coalescing: SIGCHLD blocked while several registered children die, then one delivery
     yield {"children": [ch(("status", 3), "callback"), ch(("status", 0), "future", True), ch(("signal", "TERM", "external"), "callback")],
            "program": [("register", 0, 1), ("register", 1, 0), ("register", 2, 1), ("release", 2, 0), ("release", 0, 0),
